@@ -100,12 +100,13 @@ type c17Data struct {
 	jumped      bool
 }
 
-// c17Reconf: a configuration reload at runtime (level and interval only).
+// c17Reconf: a configuration reload at runtime (level and interval; keep-days in half of them).
 type c17Reconf struct {
 	Call     int64 `json:"call"`
 	Return   int64 `json:"return"`
 	Level    int   `json:"level"`
 	Interval int   `json:"interval_s"`
+	KeepDays int   `json:"keep_days"` // may differ from the prologue's setting in half of the reloads
 }
 
 //go:norace
@@ -417,15 +418,22 @@ func c17Body(rc *RunCtx) {
 	}
 	// configuration reload at runtime: level and repeat interval change while loggers are active
 	if useConf && simrt.ChanceF(1, 4) {
-		rcf := &c17Reconf{Level: simrt.ChooseF(4), Interval: []int{10, 0, 1, 3, 30}[simrt.ChooseF(5)]}
+		rcf := &c17Reconf{Level: simrt.ChooseF(4), Interval: []int{10, 0, 1, 3, 30}[simrt.ChooseF(5)], KeepDays: d.KeepDays}
+		if simrt.ChanceF(1, 2) {
+			// keep-days changes too, after the logger's first retention pass has already run
+			rcf.KeepDays = []int{7, 0, 1, 3, 30}[simrt.ChooseF(5)]
+		}
 		at := simrt.ChooseF(12000)
 		tk := simrt.GoNamed("reconfig", func() {
 			simrt.Sleep(time.Duration(at) * time.Millisecond)
 			simrt.Fault("reconfig_level_interval")
+			if rcf.KeepDays != d.KeepDays {
+				simrt.Fault("reconfig_keep_days")
+			}
 			c17SetReconf(d, rcf)
 			rcf.Call = simrt.Stamp()
 			lg.ApplyConfig(&stubConf{m: map[string]string{
-				"log_rotation_enabled": strconv.FormatBool(d.Rotation), "log_keep_days": strconv.Itoa(d.KeepDays),
+				"log_rotation_enabled": strconv.FormatBool(d.Rotation), "log_keep_days": strconv.Itoa(rcf.KeepDays),
 				"_log_interval": strconv.Itoa(rcf.Interval), "log_level": []string{"debug", "info", "warn", "error"}[rcf.Level]}})
 			rcf.Return = simrt.Stamp()
 		})
@@ -849,17 +857,32 @@ func c17After(rc *RunCtx, res *simrt.Result) {
 		}
 		ageEnd := dayUnit(d.EndMs) - dayUnit(ft.UnixMilli())
 		agePrev := dayUnit(d.EndMs-80000) - dayUnit(ft.UnixMilli())
-		active := d.Rotation && d.KeepDays > 0
-		switch {
-		case !active || ageEnd <= int64(d.KeepDays):
-			if !exists(name) {
-				viol("retention-young-removed", fmt.Sprintf("own file %q is %d days old (keep %d, rotation %v) but was removed", name, ageEnd, d.KeepDays, d.Rotation))
+		// keep-days settings that were in force at some time (a reload at runtime may change it;
+		// a second logger keeps the prologue's): a file must stay only if no setting ever called
+		// it old, and must be gone once the final setting has called it old for a full cycle
+		keepFinal := d.KeepDays
+		if d.Reconf != nil {
+			keepFinal = d.Reconf.KeepDays
+		}
+		young := true
+		for _, k := range []int{d.KeepDays, keepFinal} {
+			if d.Rotation && k > 0 && ageEnd > int64(k) {
+				young = false
 			}
-		case agePrev > int64(d.KeepDays):
+		}
+		switch {
+		case young:
+			if !exists(name) {
+				viol("retention-young-removed", fmt.Sprintf("own file %q is %d days old (keep %d, after reload %d, rotation %v) but was removed", name, ageEnd, d.KeepDays, keepFinal, d.Rotation))
+			}
+		case d.Rotation && keepFinal > 0 && agePrev > int64(keepFinal):
 			if exists(name) {
-				viol("retention-old-kept", fmt.Sprintf("own file %q is %d days old (keep %d) and a full retention cycle has passed, but it still exists", name, agePrev, d.KeepDays))
+				viol("retention-old-kept", fmt.Sprintf("own file %q is %d days old (keep %d in force since the last reload) and a full retention cycle has passed, but it still exists", name, agePrev, keepFinal))
 			} else {
 				rc.Probe("retention_removed_file")
+				if keepFinal != d.KeepDays && (d.KeepDays <= 0 || agePrev <= int64(d.KeepDays)) {
+					rc.Probe("retention_removed_after_keep_days_lowered")
+				}
 			}
 		}
 	}
